@@ -10,16 +10,18 @@ DEMO_CMD=$(python3 -c "import json;print(json.load(open('SEEDED/meta.json'))['de
 echo "== demo cmd: $DEMO_CMD"
 FILES=$(grep '^+++ b/' SEEDED/patch.diff | sed 's#+++ b/##')
 echo "== files: $FILES"
+# git stash is shared between worktrees (agents collided on it): work from SEEDED/patch.diff only
+git checkout -q -- . && git apply SEEDED/patch.diff || { echo "patch.diff does not apply to a clean checkout of the worktree"; exit 6; }
 echo "== demo WITH change (expect FAIL)"
 ( eval "$DEMO_CMD" ) > /tmp/seed-$NAME-with.log 2>&1; RC_WITH=$?
 tail -3 /tmp/seed-$NAME-with.log | cut -c1-200
 echo "rc=$RC_WITH"
-git stash push -q -- $FILES
+git apply -R SEEDED/patch.diff
 echo "== demo WITHOUT change (expect PASS)"
 ( eval "$DEMO_CMD" ) > /tmp/seed-$NAME-without.log 2>&1; RC_WITHOUT=$?
 tail -3 /tmp/seed-$NAME-without.log | cut -c1-200
 echo "rc=$RC_WITHOUT"
-git stash pop -q
+git apply SEEDED/patch.diff
 echo "== suite WITH change"
 go build ./... && go test -vet=off -count=1 -timeout 25m -skip 'Seeded|seeded' . ./internal/leakcheck ./tests/... 2>&1 | grep -v "no test files" > /tmp/seed-$NAME-suite.log; 
 grep -c '^ok' /tmp/seed-$NAME-suite.log; grep -v '^ok' /tmp/seed-$NAME-suite.log | head -5
